@@ -1,4 +1,4 @@
-//go:build !sio_deadlock
+//go:build !sio_deadlock && !verif
 
 package sync
 
